@@ -224,9 +224,9 @@ func insertedAtHandover(r *vf.Run, rnd *rand.Rand) {
 	}
 	r.Count("inserted_forged_frames_sent_from_inside_the_m4_write", int(atomic.LoadInt64(&fired)))
 	r.Count("inserted_cases_in_which_the_accessory_was_held_after_m4", int(atomic.LoadInt64(&stalled)))
-	r.Floor("inserted_cases_same-segment", int(r.Counter("inserted_cases_same-segment"))+10000*bad, n/6)
-	r.Floor("inserted_forged_frames_sent_from_inside_the_m4_write", int(atomic.LoadInt64(&fired))+10000*bad, n/6)
-	r.Floor("inserted_cases_in_which_the_accessory_was_held_after_m4", int(atomic.LoadInt64(&stalled))+10000*bad, n/6)
+	r.Floor("inserted_cases_same-segment", int(r.Counter("inserted_cases_same-segment"))+10000*bad, n/8)
+	r.Floor("inserted_forged_frames_sent_from_inside_the_m4_write", int(atomic.LoadInt64(&fired))+10000*bad, n/8)
+	r.Floor("inserted_cases_in_which_the_accessory_was_held_after_m4", int(atomic.LoadInt64(&stalled))+10000*bad, n/8)
 	r.Floor("inserted_cases_handover_completed", int(r.Counter("inserted_cases_handover_completed"))+10000*bad, n/2)
 }
 
